@@ -53,8 +53,16 @@ func capsStreams(cfg *hx.Config) (*hx.Stream, *hx.Stream) {
 		{Background: vaxis.RGBColor(255, 0, 0), Attribute: vaxis.AttrDim, Hyperlink: "http://x", UnderlineStyle: vaxis.UnderlineDashed},
 		{},
 	}
+	// terminals that never answer the cursor position query: explicit width must not be assumed
+	nocpr := map[int]bool{}
+	for i := 0; i < 12; i++ {
+		nocpr[len(masks)] = true
+		masks = append(masks, uint32(cfg.Rand.Intn(1<<17))&^(1<<9))
+	}
 	for k, m := range masks {
-		fc := hx.NewFakeConsole(hx.ProfileFromMask(m, 3, 8))
+		prof := hx.ProfileFromMask(m, 3, 8)
+		prof.NoCPR = nocpr[k]
+		fc := hx.NewFakeConsole(prof)
 		vx, err := vaxis.New(vaxis.Options{WithConsole: fc, NoSignals: true, DisableMouse: true})
 		if err != nil {
 			panic(err)
@@ -66,7 +74,7 @@ func capsStreams(cfg *hx.Config) (*hx.Stream, *hx.Stream) {
 			obs = append(obs, hx.Bool(got[n]))
 			obsJ = append(obsJ, got[n])
 		}
-		caps.Add(hx.Tuple(advTerm(m), hx.List(obs)), map[string]interface{}{"advertised_mask": m, "caps": obsJ}, m != 0, fmt.Sprintf("bits=%d", popcount(m)))
+		caps.Add(hx.Tuple(advTerm(m), hx.List(obs)), map[string]interface{}{"advertised_mask": m, "caps": obsJ, "no_cursor_position_reply": nocpr[k]}, m != 0, fmt.Sprintf("bits=%d", popcount(m)), fmt.Sprintf("nocpr=%v", nocpr[k]))
 		// vocabulary: a few frames with every kind of style, wide cells and a cursor
 		if !cfg.Thorough() || k%16 == 0 {
 			fc.Take()
